@@ -514,12 +514,13 @@ func (l *lin) classify() string {
 	if len(l.culprits) == 0 {
 		return "not-linearizable"
 	}
+	// one unexplainable load/discover that raced with a definition in a proper ancestor accounts for the failure
 	for _, c := range l.culprits {
-		if !l.ancestorGains(c[0], c[1]) {
-			return "not-linearizable"
+		if l.ancestorGains(c[0], c[1]) {
+			return "not-linearizable-ancestor-gains"
 		}
 	}
-	return "not-linearizable-ancestor-gains"
+	return "not-linearizable"
 }
 
 // ancestorGains: step (t,i) is a load/discover through a loader one of whose PROPER ancestors is given a definition
